@@ -24,6 +24,8 @@ def scenario_of(h):
         return None
     fn, ty, args = m.group(1), m.group(2).split(',')[0].strip(), [a.strip() for a in m.group(3).split(',')]
     s = dict(esz=ESZ.get(ty, 8))
+    if ty == '0':
+        s['esz'] = 0
     if s['esz'] == 0:
         s['esz'] = 8
         s['zst'] = 1     # zero-sized elements: the native driver compares lengths and counts only
